@@ -17,7 +17,7 @@ from props.engine_common import plain
 
 ATOM_TEXT = {'txt': 'ALFA', 'quote': '"', 'backslash': '\\', 'endscript': '</script>', 'css_ph': '/* CSS_PLACEHOLDER */',
              'data_ph': '/* DATA_PLACEHOLDER */', 'js_ph': '/* JS_PLACEHOLDER */', 'nonascii': 'Zürich ✓ 東京'}
-NAME_TEXT = {'w1': 'Alfa', 'w2': 'Beta', 'space': ' ', 'underscore': '_', 'squote': "'", 'dquote': '"'}
+NAME_TEXT = {'w1': 'Alfa', 'w2': 'Beta', 'space': ' ', 'underscore': '_', 'squote': "'", 'dquote': '"', 'd2': '2'}
 VIEWS = '[Everything]\nfilter: true\n\n[Big Ones]\ndescription: totals over ten\nfilter: total > 10\n'
 
 
@@ -77,6 +77,10 @@ def build_txns(data_atoms, names, rnd, variant):
         dict(date=d(2025, 2, 2), raw_description='401K', description='Fidelity', amount=-250.0 if variant % 3 == 0 else 250.0, merchant='Fidelity',
              category='Invest', subcategory='', source='Card', location=None, tags=['investment']),
     ]
+    if len(names) > 2:
+        n3 = ''.join(NAME_TEXT[a] for a in names[2])
+        txns.append(dict(date=d(2025, 2, 9), raw_description='third ' + desc, description=n3, amount=7.75, merchant=n3, category='Food',
+                         subcategory='Grocery', source='Card', location=None, tags=[]))
     if variant % 4 == 3:
         txns.append(dict(date=d(2025, 3, 3), raw_description='REFUND ' + desc, description='Returns', amount=-75.5, merchant='Returns', category='Shopping',
                          subcategory='Returns', source='Card', location=None, tags=[]))
@@ -245,6 +249,7 @@ def run(ck):
                        'figures are compared at each format\'s printed precision (JSON and Markdown: cents; text summary: whole units)']
     ck.expect_model_violation('Report/pinned-assembly', tlc.run('Report', 'MC_Report_neg1.cfg'), 'Inv_RoundTrip')
     ck.expect_model_violation('Report/pinned-ids', tlc.run('Report', 'MC_Report_neg2.cfg'), 'Inv_EachMerchantOnce')
+    ck.expect_model_violation('Report/counter-ids', tlc.run('Report', 'MC_Report_neg3.cfg'), 'Inv_EachMerchantOnce')
     tmp = tempfile.mkdtemp(prefix='c12_')
     try:
         dump = os.path.join(tmp, 'r.dump')
@@ -263,7 +268,7 @@ def run(ck):
         if sample:
             ck.sample(sample, cap=3)
     ck.extra['rule'] = ('every description built from <= 3 of 8 text atoms (plain, quote, backslash, </script>, the three template placeholders, '
-                        'non-ASCII) x every ordered pair of 8 merchant-name shapes (differing in blanks, underscores, quotes), with and without '
+                        'non-ASCII) x every ordered pair (and, for short descriptions, triple) of 10 merchant-name shapes (differing in blanks, underscores, quotes, a trailing _2), with and without '
                         'views, mixed-sign / income / transfer / investment / refund transactions; all four formats at every verbosity'
                         + (' (1 in 6 states replayed in the quick tier)' if quick else ''))
     ck.exhaustive = not quick
